@@ -332,20 +332,35 @@ func Mark(desc any) {
 func StartWatchdog(rep *Report, d time.Duration, dump func() string) {
 	go func() {
 		last := Progress.Load()
+		since := time.Now()
 		for {
-			time.Sleep(d)
+			time.Sleep(d / 20)
 			cur := Progress.Load()
 			if cur != last {
 				last = cur
+				since = time.Now()
 				continue
 			}
-			st := dump()
-			spinning := false
-			for _, g := range strings.Split(st, "\n\n") {
-				if strings.Contains(g, "go9p.(*Logger).doLog") && !strings.Contains(strings.SplitN(g, "\n", 2)[0], "select") {
-					spinning = true
-				}
+			if time.Since(since) < d {
+				continue
 			}
+			// look twice, some time apart: the goroutine must be busy in doLog both times
+			busy := func() bool {
+				for _, g := range strings.Split(dump(), "\n\n") {
+					if strings.Contains(g, "go9p.(*Logger).doLog") && !strings.Contains(strings.SplitN(g, "\n", 2)[0], "select") {
+						return true
+					}
+				}
+				return false
+			}
+			spinning := busy()
+			time.Sleep(d / 3)
+			if Progress.Load() != last {
+				last = Progress.Load()
+				since = time.Now()
+				continue
+			}
+			spinning = spinning && busy()
 			if spinning {
 				rep.Viol("noblock:logger-goroutine-busy", fmt.Sprintf("no call returned for %v while the logger goroutine is busy inside doLog (not in its select)", d), Current.Load())
 			} else {
